@@ -75,7 +75,8 @@ type gScen struct {
 
 // points declared with real struct tags (type 32): name → 'f'/'w' + tag text, in declaration order (after every Base slot)
 var staticSlotTags = map[string]string{"FQ": "fF2,qualifier=a,required=false", "FS": "fF1,returns=*,qualifier=b,required=false",
-	"T0": "w,required=false"} // (type 33: the anonymous field `*T0`, Go field name "T0")
+	"T0": "w,required=false", // (type 33: the anonymous field `*T0`, Go field name "T0")
+	"T1": "weptarget"}        // (type 34: the anonymous field `*T1`, wired by name, required)
 
 func staticSlotsOf(ty int) []string {
 	switch ty {
@@ -83,6 +84,8 @@ func staticSlotsOf(ty int) []string {
 		return []string{"FQ", "FS"}
 	case 33:
 		return []string{"T0"}
+	case 34:
+		return []string{"T1"}
 	}
 	return nil
 }
@@ -159,6 +162,7 @@ type gRun struct {
 	spellingHits []string
 	startCreated map[int]bool // nodes whose creation completed during Run itself
 	inits        map[int]int  // how often Init ran on each node's registered instance, read at the very end
+	lost         []string // names of components that were handed to the start but are not in the registry afterwards
 	shadowBad    []string // T30: the embedded struct's field differs from Base's field of the same name and tag
 	cfgBad       []string // configuration slots of created nodes that do not hold the configured value
 	typeNameHits []string // custom-named nodes whose default (type) name resolved in a lookup although nothing is registered under it
@@ -448,8 +452,9 @@ func runGraph(sc *gScen) *gRun {
 	for _, n := range names {
 		obj, err := sr.GetSingleton(n)
 		if err != nil {
-			// not registered (Run failed before initiate, cannot happen) – keep a placeholder row
+			// not registered although it was handed to the start (or is a built-in): keep a placeholder row, and say so
 			res.rows = append(res.rows, gRow{name: n, ty: -1, meths: ".", ocls: "n"})
+			res.lost = append(res.lost, n)
 			continue
 		}
 		t := reflect.TypeOf(obj)
@@ -535,7 +540,12 @@ func runGraph(sc *gScen) *gRun {
 	}
 	res.boot = append(res.boot, res.rowOf[framework_helper.GetComponentName(obs)])
 	{
-		// ordered user post-processors (T22, Order() = 100 + node index): after the observing one, in Order() sequence
+		// ordered user post-processors: T35 (Order() = 20) then T22 (Order() = 100 + node index), after the observing one (9)
+		for i, n := range res.nodesObj {
+			if _, ok := n.(*T35); ok {
+				res.boot = append(res.boot, i)
+			}
+		}
 		for i, n := range res.nodesObj {
 			if _, ok := n.(*T22); ok {
 				res.boot = append(res.boot, i)
@@ -964,10 +974,12 @@ func (r *gRun) scenarioLine() string {
 		}
 	}
 	for i := range sc.nodes {
-		emit(i, slotNames)
+		// points declared with real struct tags are scanned by the library's own (ordered) scanners, before the harness's dynamic
+		// scanner adds the Base slots: they come FIRST in the holder's property list
 		if hasStaticSlots(sc.nodes[i].ty) {
 			emit(i, staticSlotsOf(sc.nodes[i].ty))
 		}
+		emit(i, slotNames)
 	}
 	emit(r.appRow, []string{"ApplicationRunners", "CloserComponents"})
 	return strings.Join(recs, " | ")
@@ -1023,13 +1035,13 @@ func (r *gRun) observation() string {
 func (r *gRun) slotKeys() []string {
 	var keys []string
 	for i, n := range r.sc.nodes {
-		for _, sn := range slotNames {
-			if _, ok := n.slots[sn]; ok {
+		if hasStaticSlots(n.ty) { // (first: see scenarioLine)
+			for _, sn := range staticSlotsOf(n.ty) {
 				keys = append(keys, fmt.Sprintf("%d.%s", i, sn))
 			}
 		}
-		if hasStaticSlots(n.ty) {
-			for _, sn := range staticSlotsOf(n.ty) {
+		for _, sn := range slotNames {
+			if _, ok := n.slots[sn]; ok {
 				keys = append(keys, fmt.Sprintf("%d.%s", i, sn))
 			}
 		}
@@ -1163,6 +1175,24 @@ func (r *gRun) oracles() []string {
 				for _, sig := range []string{"c04-failed-published", "c05-failed-published", "c09-failed-published", "c12-failed-published"} {
 					add(sig, "the creation of node %d completed (it is published) although one of its callbacks reported an error (fault flags %d)", i, bad)
 				}
+			}
+		}
+	}
+	// every component whose TYPE does not carry the LazyInit marker (as declared in the universe) is created by a successful
+	// start, whatever the container believes about markers
+	if r.status == "ok" {
+		for i, gn := range r.sc.nodes {
+			if i < len(r.rows) && gn.ty < len(utInfos) && !utInfos[gn.ty].lazy && !r.created[r.rows[i].name] {
+				for _, sig := range []string{"c02-eager-uncreated", "c05-eager-uncreated", "c09-eager-uncreated", "c12-eager-uncreated"} {
+					add(sig, "node %d (universe type %d, declared WITHOUT the LazyInit marker) was not created by a start that reports success", i, gn.ty)
+				}
+			}
+		}
+	}
+	if r.status != "panic" && r.status != "hang" {
+		for _, n := range r.lost {
+			for _, sig := range []string{"c01-component-lost", "c06-component-lost", "c13-component-lost", "c09-component-lost"} {
+				add(sig, "the component %q was handed to the start (app.SetComponents / ioc.Register) but the registry of the application does not know it", n)
 			}
 		}
 	}
@@ -1408,8 +1438,8 @@ func (r *gRun) oracles() []string {
 // whatever cycles it contains — must start (C02), independently of any model.
 // allOptional: at least one point, every point carries required=false, and nothing else can make the start fail
 func (r *gRun) allOptional() bool {
-	if r.sc.loaderFail || r.sc.scanFail {
-		return false
+	if r.sc.loaderFail || r.sc.scanFail || r.sc.hasType(34) {
+		return false // (type 34 has a REQUIRED point declared with a struct tag)
 	}
 	points := 0
 	for _, n := range r.sc.nodes {
@@ -1427,8 +1457,8 @@ func (r *gRun) allOptional() bool {
 }
 
 func (r *gRun) plainlyResolvable() bool {
-	if r.sc.loaderFail || r.sc.scanFail || r.sc.progQualified() {
-		return false
+	if r.sc.loaderFail || r.sc.scanFail || r.sc.progQualified() || r.sc.hasType(34) {
+		return false // (type 34 has a required by-name point of its own, declared with a struct tag)
 	}
 	names := map[string]int{}
 	for i := range r.sc.nodes {
@@ -1587,6 +1617,7 @@ func graphReplay(scn string, w *hx.Writer) {
 	scn = strings.TrimPrefix(scn, "#reentrant ")
 	scn = strings.TrimPrefix(scn, "#retry ")
 	scn = strings.TrimPrefix(scn, "#progq ")
+	scn = strings.TrimPrefix(scn, "#ioc ")
 	sc, err := parseGraphScenario(scn)
 	if err != nil {
 		return
@@ -1703,6 +1734,8 @@ func emitGraph(sc *gScen, tags []string, w *hx.Writer) *gRun {
 	scn := r.scenarioLine()
 	if sc.reentrant() {
 		scn = "#reentrant " + scn // callbacks that re-enter the factory are outside the machine model: oracle-only
+	} else if sc.hist == 3 {
+		scn = "#ioc " + scn // one start per process through ioc.Register (never cleared): not shrunk, judged by the oracles
 	}
 	w.Put(hx.Case{Scn: scn, Obs: r.observation(), Oracle: joinFails(r.oracles()), Tags: append(tags, r.labels()...)})
 	return r
